@@ -8,6 +8,7 @@ import (
 	"sort"
 	"strings"
 	"sync"
+	"unicode/utf8"
 
 	gogitcfg "github.com/go-git/go-git/v6/config"
 	format "github.com/go-git/go-git/v6/plumbing/format/config"
@@ -833,7 +834,7 @@ func c48P3m(c *fw.Ctx, g *fw.Git) {
 		}
 		vals := c48Map(got[i])["submodule."+k.name+"."+k.field]
 		okGit := len(vals) == 1 && vals[0] == k.val
-		back := ""
+		back, unreadable := "", ""
 		func() {
 			defer func() {
 				if r := recover(); r != nil {
@@ -842,7 +843,7 @@ func c48P3m(c *fw.Ctx, g *fw.Git) {
 			}()
 			m := gogitcfg.NewModules()
 			if err := m.Unmarshal(k.data); err != nil {
-				back = "error: " + err.Error()
+				unreadable = err.Error()
 				return
 			}
 			sm := m.Submodules[k.name]
@@ -861,6 +862,14 @@ func c48P3m(c *fw.Ctx, g *fw.Git) {
 		}
 		if back != "" {
 			fails = append(fails, fl{"go-git reads back a different value", k.name, k.field, k.val, back + " from " + fw.Q(string(k.data))})
+		}
+		if unreadable != "" {
+			if !utf8.ValidString(k.name) || !utf8.ValidString(k.val) { // the decoder defect of P3, one key
+				const key = "P3m go-git cannot read its own output: bytes that are not valid UTF-8 in a submodule name or value"
+				c.Fail(key, key+" :: "+unreadable+" :: "+fw.Q(string(k.data)), map[string]any{"name": k.name, "field": k.field, "value": k.val})
+			} else {
+				fails = append(fails, fl{"go-git cannot read its own output", k.name, k.field, k.val, unreadable + " from " + fw.Q(string(k.data))})
+			}
 		}
 	}
 	// keys: by the thing that matters. A failure shared by every value of a name
